@@ -111,14 +111,14 @@ Definition threshold_at_metric (metric : scores -> list Q -> list Q) (s : scores
   | Ok points => invert_pl points (metric s points) tg
   end.
 
-Inductive metric_name := MTpr | MFnr | MTnr | MFpr | MTopr | MTonr.
+Inductive metric_name := NTpr | NFnr | NTnr | NFpr | NTopr | NTonr.
 (* NaN (a class without samples) is outside the property ("all finite y"); totalised to 0 *)
 Definition rate_val (r : rate) : Q := match r with Some v => v | None => 0 end.
 Definition metric_of_name (m : metric_name) (s : scores) (points : list Q) : list Q :=
   map (fun t => rate_val (match m with
-                          | MTpr => s_tpr s (Fin t) | MFnr => s_fnr s (Fin t)
-                          | MTnr => s_tnr s (Fin t) | MFpr => s_fpr s (Fin t)
-                          | MTopr => s_topr s (Fin t) | MTonr => s_tonr s (Fin t)
+                          | NTpr => s_tpr s (Fin t) | NFnr => s_fnr s (Fin t)
+                          | NTnr => s_tnr s (Fin t) | NFpr => s_fpr s (Fin t)
+                          | NTopr => s_topr s (Fin t) | NTonr => s_tonr s (Fin t)
                           end)) points.
 
 (* ------------------------------------------------------------------ specification vocabulary *)
